@@ -2,6 +2,7 @@ package main
 
 import (
 	"fmt"
+	"hash/fnv"
 	"go/token"
 	"go/types"
 	"os"
@@ -123,7 +124,10 @@ func (e *Engine) stringID(s string) string {
 	if id, ok := e.strIDs[s]; ok {
 		return id
 	}
-	id := fmt.Sprint(len(e.strIDs) + 1)
+	// deterministic: independent of the order in which units are generated
+	h := fnv.New32a()
+	h.Write([]byte(s))
+	id := fmt.Sprint(1000000 + int(h.Sum32()%900000000))
 	e.strIDs[s] = id
 	return id
 }
@@ -134,7 +138,9 @@ func (e *Engine) funcID(f *ssa.Function) string {
 	if id, ok := e.funcIDs[f]; ok {
 		return id
 	}
-	id := fmt.Sprint(len(e.funcIDs) + 1)
+	h := fnv.New32a()
+	h.Write([]byte(f.String()))
+	id := fmt.Sprint(1000000 + int(h.Sum32()%900000000))
 	e.funcIDs[f] = id
 	return id
 }
